@@ -7,13 +7,15 @@
    identity holds one exactly on the main diagonal; a vector laid on the k-th diagonal (diag of a 1-D array) gives the
    square matrix of size len + |k| with the vector on that diagonal and zero elsewhere, and extracting that diagonal
    again returns the vector (C16_identity, C16_diag_vector, C16_diag_roundtrip).
-   PARTIAL / not proved: the float behaviour of linspace and diagflat of higher-rank input are checked by the
+   diagflat of an array of ANY rank lays its flattened elements on the k-th diagonal, and extracting that diagonal
+   returns the flattened array (C16_diagflat, C16_diagflat_roundtrip).
+   PARTIAL / not proved: the float behaviour of linspace is checked by the
    correspondence run (exhaustive sizes 0..6 x 0..6, offsets -7..7; f64 results compared with the exact rational model
    within a relative 2^-40); logspace / geomspace / rand are checked as properties of the implementation's own output
    (count, endpoints, constant ratio within tolerance; shape and unit interval) with no Coq model. *)
 From Coq Require Import QArith.
 Local Close Scope Q_scope.
-From ArrRs Require Import Index Axis Create Create_proofs Diag_proofs.
+From ArrRs Require Import Index Axis Create Create_proofs Diag_proofs Diagflat_proofs.
 
 Theorem C16_full : forall (T : Type) (zero : T) sh v,
   full sh v = Ok (mk (repeat v (prod sh)) sh) /\
@@ -78,6 +80,18 @@ Proof. exact @diag_1d_spec. Qed.
 Theorem C16_diag_roundtrip : forall (T : Type) (zero : T) (a : arr T) k, ndim a = 1 -> wf a ->
   exists M, diag zero a k = Ok M /\ diag zero M k = Ok (mk (elems a) [len a]).
 Proof. exact @diag_roundtrip. Qed.
+
+Theorem C16_diagflat : forall (T : Type) (zero : T) (a : arr T) k,
+  let s := len a in let n := s + Z.abs_nat k in
+  exists M, diagflat zero a k = Ok M /\ shape M = [n; n] /\ wf M /\
+    forall i j, i < n -> j < n ->
+      get zero M [i; j] = if (0 <=? k)%Z then (if j =? i + Z.abs_nat k then nth i (elems a) zero else zero)
+                          else (if i =? j + Z.abs_nat k then nth j (elems a) zero else zero).
+Proof. exact @diagflat_spec. Qed.
+
+Theorem C16_diagflat_roundtrip : forall (T : Type) (zero : T) (a : arr T) k,
+  exists M, diagflat zero a k = Ok M /\ diag zero M k = Ok (mk (elems a) [len a]).
+Proof. exact @diagflat_roundtrip. Qed.
 
 Example C16_nonvacuous :
   eye 0%Z 1%Z 2 3 1 = Ok (mk [0;1;0;0;0;1]%Z [2;3]) /\ tri 0%Z 1%Z 3 3 (-1) = Ok (mk [0;0;0;1;0;0;1;1;0]%Z [3;3]) /\
